@@ -226,6 +226,22 @@ def streams(rng, tier):
                 rule="dec skip on chains of 10^5 / 10^6 (thorough 4*10^6) tags, definite / indefinite arrays and maps, mixed; whole and cut before the bottom: an answer (no stack overflow), the model's")
     s8.shrinkable = False
     yield s8
+    # rendering: every head at its extreme arguments through the diagnostic display (integers at both ends of their range included)
+    rops = []
+    for b0 in range(256):
+        for width in gen.WIDTHS:
+            for n in (0, 23, 255, 2**16 - 1, 2**32 - 1, 2**63 - 1, 2**63, 2**64 - 1):
+                if gen.fits(width, n):
+                    rops.append("display " + gen.head(b0 >> 5, n, width).hex() if (b0 & 31) == 0 else "display " + bytes([b0]).hex() + gen.rand_bytes(rng, 8).hex())
+    rops = list(dict.fromkeys(rops))
+    def judge_render(op, impl, model, spec):
+        if impl.startswith("overflow") or impl in ("panic", "fmt-error") or impl.startswith("crash"):
+            return "violation"
+        return "ok"
+    s9 = Stream("rendering-extremes", "hcore", rops, judge=judge_render,
+                rule="display of every major type at its extreme arguments (0, 23, 2^8-1 .. 2^64-1 at every width) and of every initial byte before random bytes: an answer, no panic")
+    s9.shrinkable = False
+    yield s9
     # the typed iterators behind the Iterator adaptors (an overriding nth / size_hint computes with declared lengths: the harness is
     # built with overflow checks, so arithmetic that would wrap in a release build and panic in a debug build panics here)
     from verifkit.props import C04
@@ -237,5 +253,7 @@ def replay_streams(rp):
     if op.startswith("aiter"):
         from verifkit.props import C04
         return C04.replay_streams(rp)
+    if op.startswith("display"):
+        return [Stream("replay", "hcore", [op], judge=lambda o, i, m, s: "violation" if i.startswith(("overflow", "crash")) or i in ("panic", "fmt-error") else "ok")]
     j = {"dec": judge_acc, "tdecm": judge_tdecm, "seq": judge_seq, "dropcount": judge_drop}.get(op.split(" ")[0])
     return [Stream("replay", "hcore", [op], model_ops=[rp.get("model_op") or op], judge=j)]
